@@ -16,7 +16,7 @@ import (
 // ---------------------------------------------------------------------------
 
 func C05(ctx *core.Ctx, r *core.Report) {
-	r.Explanation = "Where and how restrictions are enforced, decided on all paths: in Selection.set (and get) the field pre-constraints are evaluated before Node.Field and their veto/error edge cannot reach it; Node.Field is invoked in package node only from those two functions; the field constraint is installed on every path of Browser.baseConstraints unless constraints are disabled, on the split side of an edit, and every Selection built in package node inherits its Constraints; loops over restriction levels (ranges, lengths of the typedef chain) never accept inside the loop; the checker's dispatch covers string, string-list and numeric formats; no crash site is reachable from the restriction checker. Not decided: that a given value is accepted or rejected correctly; enum/bits/identityref membership (inside NewValue)."
+	r.Explanation = "Where and how restrictions are enforced, decided on all paths: in Selection.set (and get) the field pre-constraints are evaluated before Node.Field and their veto/error edge cannot reach it; Node.Field is invoked in package node only from those two functions; the field constraint is installed on every path of Browser.baseConstraints unless constraints are disabled, on the split side of an edit, and every Selection built in package node inherits its Constraints; loops over restriction levels (ranges, lengths of the typedef chain) never accept inside the loop; the checker's dispatch covers string, string-list and numeric formats; no crash site is reachable from the restriction checker. Range bounds are compared on exact numbers (the integer-width rule of C10 over meta.RangeNumber, five conversions triaged), and an error raised for one element of a list value is not overwritten by a later element (iteration callbacks and loops). Not decided: that a given value is accepted or rejected correctly; enum/bits/identityref membership (inside NewValue)."
 	nodeI := ctx.Named("node", "Node")
 	set := ctx.Method("node", "Selection", "set")
 	get := ctx.Method("node", "Selection", "get")
